@@ -70,6 +70,12 @@ def hooks():
         old = a[0]; a[0] = old + args[1]
         return old
 
+    def h_store(ex, st, callee, args):
+        ex.deref(args[0])[0] = args[1]
+        return []
+
+    def h_load(ex, st, callee, args): return ex.deref(args[0])[0]
+
     def h_arc_deref(ex, st, callee, args):
         p = args[0]; v = p.get() if isinstance(p, Ptr) else p
         return v if isinstance(v, Ptr) else NotImplemented
@@ -79,7 +85,8 @@ def hooks():
         (r'^(?:core::)?str::<impl str>::ends_with::<&str>$', h_ends_with), (r'^(?:core::)?str::<impl str>::contains::<&str>$', h_contains),
         (r'^(?:core::)?str::<impl str>::len$|^(?:std::string::)?String::len$', h_len), (r'^(?:core::)?str::<impl str>::is_empty$|^(?:std::string::)?String::is_empty$', h_is_empty),
         (r'^<(?:std::string::)?String as (?:std::ops::)?Deref>::deref$', h_deref), (r'^(?:std::string::)?String::as_str$', h_as_str),
-        (r'^(?:std::sync::atomic::)?(?:AtomicUsize|Atomic::<usize>)::fetch_add$', h_fetch_add), (r'^<Arc<(?:std::sync::atomic::)?(?:AtomicUsize|Atomic<usize>)> as (?:std::ops::)?Deref>::deref$', h_arc_deref),
+        (r'^(?:std::sync::atomic::)?(?:AtomicUsize|Atomic::<usize>)::fetch_add$', h_fetch_add),
+        (r'^(?:std::sync::atomic::)?(?:AtomicUsize|Atomic::<usize>)::store$', h_store), (r'^(?:std::sync::atomic::)?(?:AtomicUsize|Atomic::<usize>)::load$', h_load), (r'^<Arc<(?:std::sync::atomic::)?(?:AtomicUsize|Atomic<usize>)> as (?:std::ops::)?Deref>::deref$', h_arc_deref),
     ]
 
 
@@ -169,7 +176,8 @@ def job_rr(n):
         else:
             for i in range(n):
                 out.append(('counter mod n = %d selects replica %d' % (i, i), Implies(URem(c, BitVecVal(n, 64)) == i, got == String('replica%d' % i))))
-            out.append(('the counter advances by exactly one', r.st.roots['cell'][0] == c + 1))
+            # the next pick is the next replica of the cycle (a bounded counter is as good as a free-running one); the wrap at 2^64 is outside the claim
+            out.append(('the counter advances to the next position of the cycle', Implies(c != BitVecVal(2 ** 64 - 1, 64), URem(r.st.roots['cell'][0], BitVecVal(n, 64)) == URem(c + 1, BitVecVal(n, 64)))))
         return out
     return ex, res, post, {'counter': c}
 
@@ -204,7 +212,7 @@ def run(ctx):
     big = ctx.tier == 'thorough'
     ctx.bounds = {'event_type_matches': 'all strings (unbounded length, Z3 string theory)', 'find_target_pipeline': 'route tables of <= %d routes x <= 2 patterns, <= 2 pipelines, all strings symbolic' % (3 if big else 2),
                   'select_replica': 'round-robin, 0..5 replicas, any counter value, one step', 'outside': 'HashKey partitioning (serde_json rendering + SipHash), single-vs-batch key rendering, coordinator wrappers, counter wrap at 2^64'}
-    ctx.assumptions += ['str ==, strip_suffix(char), starts_with as the corresponding Z3 string operations; AtomicUsize::fetch_add as read-then-add on a cell']
+    ctx.assumptions += ['str ==, strip_suffix(char), starts_with as the corresponding Z3 string operations; AtomicUsize::fetch_add / load / store as operations on a cell (sequential: one caller)']
     tasks = [('matches',)] + [('find', nr, npat, npipe) for nr in range(0, (4 if big else 3)) for npat in (1, 2) for npipe in (0, 1, 2) if not (nr == 0 and npat == 2)] + [('rr', n) for n in range(0, 6)]
     with ProcessPoolExecutor(max_workers=14, mp_context=mp.get_context('fork')) as pool:
         res = list(pool.map(_worker, tasks))
